@@ -175,28 +175,30 @@ variable {P S : Type} (C : Codec P S)
 theorem setKid_idem (pos : Nat) (x : Val P S) (v : Val P S) : setKid pos x (setKid pos x v) = setKid pos x v := by
   cases v <;> simp [setKid]
 
-theorem reindexFrom_length (pos : Nat) (labels : List Nat) : ∀ (items : List (Val P S)) (k : Nat),
-    (reindexFrom C pos labels k items).length = items.length
+theorem reindexFrom_length (pos : Nat) (labels : List Nat) (lim : Nat) : ∀ (items : List (Val P S)) (k : Nat),
+    (reindexFrom C pos labels lim k items).length = items.length
   | [], _ => rfl
-  | _ :: vs, k => by simp [reindexFrom, reindexFrom_length pos labels vs (k + 1)]
+  | _ :: vs, k => by simp [reindexFrom, reindexFrom_length pos labels lim vs (k + 1)]
 
 /-- `_check_indices` is idempotent -/
-theorem reindexFrom_idem (pos : Nat) (labels : List Nat) : ∀ (items : List (Val P S)) (k : Nat),
-    reindexFrom C pos labels k (reindexFrom C pos labels k items) = reindexFrom C pos labels k items
+theorem reindexFrom_idem (pos : Nat) (labels : List Nat) (lim : Nat) : ∀ (items : List (Val P S)) (k : Nat),
+    reindexFrom C pos labels lim k (reindexFrom C pos labels lim k items) = reindexFrom C pos labels lim k items
   | [], _ => rfl
-  | v :: vs, k => by simp [reindexFrom, setKid_idem, reindexFrom_idem pos labels vs (k + 1)]
+  | v :: vs, k => by
+    simp only [reindexFrom, reindexFrom_idem pos labels lim vs (k + 1)]
+    split <;> simp [setKid_idem]
 
 theorem reindex_idem (a : ArrSpec) (items : List (Val P S)) : reindex C a (reindex C a items) = reindex C a items := by
   unfold reindex
   split
   · rfl
-  · exact reindexFrom_idem C _ _ items 0
+  · exact reindexFrom_idem C _ _ _ items 0
 
 theorem reindex_length (a : ArrSpec) (items : List (Val P S)) : (reindex C a items).length = items.length := by
   unfold reindex
   split
   · rfl
-  · exact reindexFrom_length C _ _ items 0
+  · exact reindexFrom_length C _ _ _ items 0
 
 theorem setKid_of_idxOk (hp : ∀ a b, C.peq a b = true ↔ a = b) (pos : Nat) (labels : List Nat) (k : Nat) (v : Val P S)
     (h : idxOk C pos labels k v = true) : setKid pos (.prim (idxVal C labels k)) v = v := by
@@ -215,12 +217,18 @@ theorem setKid_of_idxOk (hp : ∀ a b, C.peq a b = true ↔ a = b) (pos : Nat) (
   | blob a x ch => simp [idxOk] at h
 
 /-- entries that already carry their canonical index are left alone -/
-theorem reindexFrom_of_ok (hp : ∀ a b, C.peq a b = true ↔ a = b) (pos : Nat) (labels : List Nat) :
-    ∀ (items : List (Val P S)) (k : Nat), idxOkFrom C pos labels k items = true → reindexFrom C pos labels k items = items
+theorem reindexFrom_of_ok (hp : ∀ a b, C.peq a b = true ↔ a = b) (pos : Nat) (labels : List Nat) (lim : Nat) :
+    ∀ (items : List (Val P S)) (k : Nat), idxOkFrom C pos labels lim k items = true → reindexFrom C pos labels lim k items = items
   | [], _, _ => rfl
   | v :: vs, k, h => by
-    simp only [idxOkFrom, Bool.and_eq_true] at h
-    simp [reindexFrom, setKid_of_idxOk C hp pos labels k v h.1, reindexFrom_of_ok hp pos labels vs (k + 1) h.2]
+    simp only [idxOkFrom, Bool.and_eq_true, Bool.or_eq_true, decide_eq_true_eq] at h
+    simp only [reindexFrom, reindexFrom_of_ok hp pos labels lim vs (k + 1) h.2]
+    split
+    · rename_i hk
+      rcases h.1 with h1 | h1
+      · omega
+      · rw [setKid_of_idxOk C hp pos labels k v h1]
+    · rfl
 
 theorem reindex_of_canon (hp : ∀ a b, C.peq a b = true ↔ a = b) (a : ArrSpec) (items : List (Val P S))
     (h : isCanonArr C a items = true) : reindex C a items = items := by
@@ -230,7 +238,7 @@ theorem reindex_of_canon (hp : ∀ a b, C.peq a b = true ↔ a = b) (a : ArrSpec
   · rfl
   · rename_i pos hpos
     simp only [hpos] at h
-    exact reindexFrom_of_ok C hp pos _ items 0 h
+    exact reindexFrom_of_ok C hp pos _ _ items 0 h
 
 theorem finishArr_of_wf (hp : ∀ a b, C.peq a b = true ↔ a = b) (a : ArrSpec) (items : List (Val P S))
     (hlen : (decide (a.minLen ≤ items.length) && decide (items.length ≤ a.maxLen)) = true)
